@@ -627,15 +627,16 @@ PROPS = {
         "level_note": "Trusted: Lean kernel; strings.Split/Join modelled as splitLF/joinLF; the hand transcription of Document.* (tied by the "
                       "differential run only: 6.9e4 cases quick, exhaustive over {a,LF}^<=5); positions are byte offsets (as in the code), "
                       "reversed ranges are outside the statement.",
-        "model_modules": ["TemplVerif.Model.Doc"],
-        "proof_modules": ["TemplVerif.Proofs.Doc"],
+        "model_modules": ["TemplVerif.Model.Doc", "TemplVerif.Model.Docs"],
+        "proof_modules": ["TemplVerif.Proofs.Doc", "TemplVerif.Proofs.Docs"],
         "rule": "exhaustive: every document over {a,LF} up to 5 (quick) / 7 (thorough) bytes x every range with "
                 "start<=stop whose coordinates run to one past the last line / longest line x 6 replacement texts; "
                 "plus random documents up to 200 symbols (multi-byte, tabs) with edit sequences of up to 12 steps, each "
                 "step one case. Distinct = distinct (document, range, text); non-trivial = neither a nil-range full "
                 "replace nor an empty edit.",
         "exhaustive": True,
-        "proved": ["C17_main: Document.Apply = byte splice for every document, ordered range (after clamping) and text",
+        "proved": ["C17_sessions_independent / C17_other_documents_untouched: in any session over any number of open documents (URIs compared byte for byte) the server's copy of a document is what the messages about that document alone produce",
+                   "C17_main: Document.Apply = byte splice for every document, ordered range (after clamping) and text",
                    "C17_nil: nil range = full replace", "C17_hist: any change sequence keeps the copy equal to the editor's buffer",
                    "C17_transcription_pinned (T1: control structure and calls of documentcontents.go:Document.Apply, documentcontents.go:DocumentContents.Apply, documentcontents.go:DocumentContents.Delete, documentcontents.go:DocumentContents.Get, documentcontents.go:DocumentContents.Set)"],
         "monitored": ["model = real Document.Apply on every explored case", "real output = splice specification"],
